@@ -382,6 +382,31 @@ def formula(F, res):
             if cc is not None and "int" in cc:
                 default = cc["int"]
     problems = []
+    if isinstance(e, tuple) and e[0] == "match_opt":
+        # `match extra_fees { Some(extra) => A, None => B }`: A = a*len + b + extra, B = a*len + b + default
+        def parts(x):
+            terms = list(x[1]) if isinstance(x, tuple) and x[0] == "+" else [x]
+            size = [t for t in terms if t[0] == "*" and len(t[1]) == 2 and any(y[0] == "len" for y in t[1]) and any(y[0] == "arg" and y[2][-1:] == ("min_fee_coefficient",) for y in t[1])]
+            const = [t for t in terms if t[0] == "arg" and t[2][-1:] == ("min_fee_constant",)]
+            rest = [t for t in terms if t not in size + const]
+            return size, const, rest
+        for arm, x in (("Some(extra)", e[2]), ("None", e[3])):
+            size, const, rest = parts(x)
+            if len(size) != 1:
+                problems.append("the `%s` arm has no single term `len(payload) * min_fee_coefficient`" % arm)
+            if len(const) != 1:
+                problems.append("the `%s` arm has no single term `min_fee_constant` (the protocol's constant part of the minimum fee is dropped when %s)" % (arm, "a margin is configured" if arm.startswith("Some") else "no margin is configured"))
+            if arm.startswith("Some"):
+                if not (len(rest) == 1 and rest[0][0] == "arg" and "Option<u64>" in rest[0][1]):
+                    problems.append("the `%s` arm does not add exactly the configured margin (%s)" % (arm, ", ".join(symexpr.show(t) for t in rest) or "nothing"))
+            else:
+                if not (len(rest) == 1 and (rest[0][0] == "c" and rest[0][1] != 0 and (default is None or rest[0][1] == default) or rest[0][0] == "const")):
+                    problems.append("the `%s` arm does not add the default margin (%s)" % (arm, ", ".join(symexpr.show(t) for t in rest) or "nothing"))
+        if problems:
+            res.add([finding("FORMULA", key, w, "the fee function computes %s - %s" % (symexpr.show(e), "; ".join(problems)))])
+        else:
+            res.add([ok("FORMULA", key, w, "canonical form: %s" % symexpr.show(e))])
+        return
     if not (isinstance(e, tuple) and e[0] == "+"):
         if isinstance(e, tuple) and e[0] == "?":
             res.add([assumption("FORMULA", key, w, "the fee expression is outside the recognised fragment (%s): not decided" % e[1])])
